@@ -31,8 +31,15 @@ func init() {
 	}})
 }
 
+var c15PathVarMethods = []string{"UnaryGet", "UnaryField", "UnaryMulti", "Page", "PutPage", "Download"}
+
+func restOnly(cfg *Config) bool { return len(cfg.Protocols) == 1 && cfg.Protocols[0] == ProtoREST }
+
 func genHistoryAction(t *rapid.T, cfg *Config) Scenario {
 	o := genOpts{maxBlob: 40, backendKinds: []string{"ok", "ok", "error", "http_status"}, segmentation: rapid.IntRange(0, 3).Draw(t, "h_segmentation") == 0}
+	if restOnly(cfg) {
+		o.methods = c15PathVarMethods // every request is turned into a URL with path variables of its own
+	}
 	sc := Scenario{Config: *cfg}
 	sc.Client = genClient(t, cfg, o)
 	sc.Backend = genBackend(t, &sc.Client, o)
@@ -123,6 +130,10 @@ func TestC15(t *testing.T) {
 		if rapid.IntRange(0, 3).Draw(t, "unenveloped_proto_backend") == 0 {
 			cfg.Protocols, cfg.Codecs = []string{ProtoConnect}, []string{CodecProto}
 		}
+		if rapid.IntRange(0, 5).Draw(t, "rest_only_backend") == 0 {
+			// REST backend: every RPC is rendered into a URL from the rule's (shared) path template
+			cfg.Protocols, cfg.Codecs = []string{ProtoREST}, append([]string(nil), rapid.SampledFrom([][]string{{CodecJSON}, {CodecProto, CodecJSON}}).Draw(t, "rest_codecs")...)
+		}
 		cfg.MaxMsg = 4096
 		cfg.ViaDefaults = false
 		c := &histCase{Config: cfg}
@@ -131,6 +142,9 @@ func TestC15(t *testing.T) {
 			c.History = append(c.History, genHistoryAction(t, &cfg))
 		}
 		o := genOpts{maxBlob: 40, backendKinds: []string{"ok", "ok", "error"}}
+		if restOnly(&cfg) {
+			o.methods = c15PathVarMethods
+		}
 		c.Probe = Scenario{Config: cfg}
 		c.Probe.Client = genClient(t, &cfg, o)
 		c.Probe.Backend = genBackend(t, &c.Probe.Client, o)
